@@ -5,6 +5,48 @@ import os
 from . import common as C
 
 
+def tilejson_object_stage(run, tier, hb, d):
+    """The TileJSON document as a state machine (spec/TileJson.tla): beyond the listed properties -> observations only."""
+    cases = os.path.join(d, "tj_cases.ndjson")
+    mc = C.run_tlc("mc/MC_TileJson.tla", "mc/MC_TileJson_%s.cfg" % tier, "C17_mc_tilejson", workers=4, replay_out=cases, timeout=1200)
+    C.require_clean(mc, "MC_TileJson (laws of merge / limit + every history of mutator calls)")
+    run.add_tlc(mc)
+    t = os.path.join(d, "tj_trace.ndjson")
+    s = C.run_harness(hb, ["replay", "TILEJSON", cases, t], timeout=1200)
+    v = C.validate_trace("trace/Trace_TileJson.tla", "trace/Trace_TileJson.cfg", "C17_trace_tilejson", t, timeout=1200)
+    run.add_tlc(v)
+    by = {}
+    for (line, fl) in v.fails:
+        by.setdefault(fl["clauses"][0], []).append(fl)
+    for cl, fls in sorted(by.items()):
+        run.observation(cl, {"what": "a recorded call on the real TileJSON object is not the documented step of TileJson.tla",
+                             "count": len(fls), "first": {k: fls[0].get(k) for k in ("case", "op", "err", "differs", "observed")}})
+    # binding self-test: four corrupted records must be rejected
+    recs = C.read_ndjson(t)
+    ops = [i for i, r in enumerate(recs) if r["ev"] == "Op" and r["doc"]["layers"] and r["doc"]["bounds"] and any(p[0] == "maxzoom" for p in r["doc"]["vals"])][:4]
+    if len(ops) == 4:
+        def mut(i, f):
+            r = json.loads(json.dumps(recs[i]))
+            f(r)
+            return r
+        bad = [mut(ops[0], lambda r: [p.__setitem__(2, (p[2] + 1) % 256) for p in r["doc"]["vals"] if p[0] == "maxzoom" and p[1] == "b"]),
+               mut(ops[1], lambda r: r["doc"]["layers"].pop()),
+               mut(ops[2], lambda r: r["doc"]["bounds"].__setitem__(0, r["doc"]["bounds"][0] - 1000000)),
+               mut(ops[3], lambda r: r.__setitem__("ok", 0))]
+        ct = os.path.join(d, "tj_corrupted.ndjson")
+        with open(ct, "w") as f:
+            for i, b in zip(ops, bad):
+                # the record before it (the state the step starts from) followed by the corrupted record
+                pre = recs[i - 1]
+                f.write(json.dumps(pre) + "\n" + json.dumps(b) + "\n")
+        cv = C.validate_trace("trace/Trace_TileJson.tla", "trace/Trace_TileJson.cfg", "C17_trace_tilejson_corrupted", ct, timeout=600)
+        rejected = {line for (line, _) in cv.fails if line % 2 == 0}
+        if len(rejected) != 4:
+            raise C.ToolError("self-test: 4 corrupted TileJSON records, %d rejected" % len(rejected))
+    return {"histories": s["cases"], "steps_validated": s["steps"], "steps_not_as_documented": len(v.fails),
+            "corrupted_records_rejected": 4 if len(ops) == 4 else None}
+
+
 def run(tier, seed, replay):
     run = C.Run("C17", tier, seed, "model_checking")
     d = C.outdir("C17")
@@ -62,6 +104,7 @@ def run(tier, seed, replay):
                     run.failure({"clause": cl, "kind": "tilesjson", "fmt": fl["q"]["src"].get("fmt", ""), "case": fl})
         run.evaluations += len(seen)
         run.extra_served = len(seen)
+    tjobj = tilejson_object_stage(run, tier, hb, d) if not replay else None
     special = {34, 92, 0, 8, 10, 12, 31, 127, 133, 8232, 65535, 128512}
     nt = [c for c in case_list if c["k"] == "tilejson" or (c["value"]["t"] == "s" and special & set(c["value"]["v"])) or c["value"]["t"] in ("a", "o")]
     run.nontrivial = len(nt)
@@ -73,7 +116,8 @@ def run(tier, seed, replay):
                 "documents (string/list/byte values, bounds, center, vector_layers) x coverage classes x {versatiles, pmtiles, tar, directory} "
                 "are written by the real writers and read back. non-trivial = string with a character that needs care, composite value, or "
                 "TileJSON container case")
-    run.extra = {"cases": s["cases"], "served_tiles_json_documents": getattr(run, "extra_served", 0)}
+    run.extra = {"cases": s["cases"], "served_tiles_json_documents": getattr(run, "extra_served", 0),
+                 "tilejson_object_state_machine (beyond the property; observations only)": tjobj}
     run.assumptions = ["serde_json is the independent standard parser", "numbers are compared as f64 values (canonical {:e} text)",
                        "the served tiles.json is fetched from the real binary for every source x server instance (Server.tla TilesJsonFails)"]
     return run.finish()
